@@ -11,7 +11,7 @@ Model: `Jap.Src` (Core/Sources.lean), the precedence pipeline as `_core.py` impl
 `_load_env_vars` (config variable first, then individual variables, INTO AN EMPTY NAMESPACE),
 `merge_config` (= `Namespace.update` of every leaf, then `apply_appends` for the `key+` leaves),
 the argv fold (`--k=v`, `--k+=v` on the running value, `--k.i=v` on the dict built so far,
-`--cfg` merged at its position).  Reference: `refFold`, a left fold of `set | append | item`
+`--cfg` merged at its position).  Reference: `refFold`, a left fold of `set | append | item` (and `note`: the bookkeeping entry of the config argument's own list)
 assignments over the flattened sources `asgAll p src` =
 defaults ++ default config files ++ env config ++ env variables ++ command line.
 
@@ -237,7 +237,7 @@ theorem C04_methods_string (p : Parser) (src : Sources) (t : KV) (hp : wfParser 
 theorem C04_methods_cfg_option (p : Parser) (files : List (Option KV)) (env : List (String × V)) (argv : List Item) (t : KV)
     (hp : wfParser p = true) (a b : Arg) (ha : a ∈ p.args) (hb : b ∈ p.args) (hne : b.dest ≠ a.dest) :
     getK a.dest (parseArgs p ⟨files, env, [.cfg b.dest t]⟩) = getK a.dest (parseString p ⟨files, env, argv⟩ t) := by
-  simp only [parseArgs, parseString, List.foldl_cons, List.foldl_nil, argvStep, applyConfig]
+  simp only [parseArgs, parseString, List.foldl_cons, List.foldl_nil, argvStep, applyConfig, applyConfigE]
   rw [getK_setK_dest hp ha hb, if_neg hne]
   rfl
 
@@ -529,6 +529,78 @@ theorem C04_order_depth_nonuniform_counterexample :
     getK [kq "v"] (finalLevel {} [true, true] (L2 false)) = some (.atom 1)
     ∧ getK [kq "v"] (refFold (asgAllC (L2 false).p (L2 false).src { envArg := some true }) []) = some (.atom 5)
     ∧ getK [kq "v"] (finalLevel {} [true, true] (L2 true)) = some (.atom 5) := ⟨rfl, rfl, rfl⟩
+
+/-! ## sections for inner levels inside a config of an outer level -/
+
+/-- one level of the path, sections included: with an incoming section `inc` (what the enclosing parsers' configs said about this
+    level) and configs of its own that hold sections for deeper levels, the level's argument ends — after its own parse and the
+    `handle_subcommands` merges of all enclosing parsers — with the fold of: its base sources, the incoming section, its command
+    line (of a config: the level's own keys).  Inside `inc`, `key+` entries are excluded by `treeOk` only if they are not the
+    level's (they append to the level's list as in any config); what an OUTER `merge_config` did to them before is the excluded class
+    (`C04_subsection_append_counterexample`) -/
+theorem C04_order_level_sections_partial (L : Level) (below : List Level) (c : Call) (inc : KV) (hp : wfParser L.p = true)
+    (hs : srcWfC L.p { L.src with argv := [] } c = true) (hargv : ∀ it ∈ L.src.argv, itemWfT L below it = true)
+    (hinc : treeOk L.p (ownPart (nextName below) inc) = true)
+    (anc : List Bool) (hanc : ∀ e ∈ anc, e = envRead L.p c.envArg) (a : Arg) (ha : a ∈ L.p.args)
+    (hg : c.defaults = true → envRead L.p c.envArg = true → envPlain L.p (environOf L.src c) a.dest = true) :
+    getK a.dest (finalLevelT c anc L below inc) =
+      valueAfter (asgBaseC L.p L.src c ++ asgTree (ownPart (nextName below) inc) ++ asgArgvT L below L.src.argv) a.dest := by
+  rw [stage_finalLevelT hp ha c below inc hs hargv hinc anc hanc]
+  have hb := (stage_baseC hp ha { L.src with argv := [] } c hs hg).1
+  have hb' : getK a.dest (defaultsAndEnvironC L.p L.src c) = evalKey a.dest (asgBaseC L.p L.src c) .none := hb
+  rw [hb', valueAfter, List.append_assoc, evalKey_append, evalKey_append, evalKey_append]
+
+/-- how the section reaches the next level: `parseLevelsT` hands the pending section on -/
+theorem C04_sections_chain (c : Call) (anc : List Bool) (inc : KV) (L : Level) (rest : List Level) :
+    parseLevelsT c anc inc (L :: rest) =
+      finalLevelT c anc L rest inc :: parseLevelsT c (envRead L.p c.envArg :: anc) (ownParseT c L rest inc).2 rest := rfl
+
+/-- several outer configs: a section WITHOUT `key+` entries is assigned leaf by leaf into the pending section, so the last config wins
+    key by key (documented order of the command line) -/
+theorem C04_sections_last_writer (below : List Level) (outer sec pend : KV) (hn : noPlusLeaves (update sec pend) = true)
+    (k : Key) (hk : k ≠ []) (hd : ∀ x ∈ leaves sec, x.1 = k ∨ Diverge x.1 k) :
+    secMerge below outer sec pend = update sec pend
+    ∧ getK k (secMerge below outer sec pend) = (lastWrite k (leaves sec)).or (getK k pend) := by
+  have h1 : secMerge below outer sec pend = update sec pend := by
+    unfold secMerge
+    have : (leaves (update sec pend)).filter (fun kv => isPlus kv.1) = [] := by
+      simp only [noPlusLeaves, List.all_eq_true, Bool.not_eq_true'] at hn
+      exact List.filter_eq_nil_iff.mpr (fun x hx => by simp [hn x hx])
+    rw [this]; rfl
+  exact ⟨h1, by rw [h1]; exact fold_last k hk _ _ hd⟩
+
+/-- root: `--cfg`, `--l` (List[int], [17, 13]); subcommand `s1`: `--l` ([1]), `--m` ([2]) -/
+private def Rsec : Level := ⟨"", ⟨[⟨[kq "cfg"], .config, .none⟩, ⟨[kq "l"], .list, .lst [.atom 17, .atom 13]⟩], some "APP", false, .none⟩,
+  ⟨[], [], [.cfg [kq "cfg"] [(kq "s1", .dct [(kq "l+", .lst [.atom 0]), (kq "m+", .lst [.atom 5])])]]⟩⟩
+private def S1sec : Level := ⟨"s1", ⟨[⟨[kq "l"], .list, .lst [.atom 1]⟩, ⟨[kq "m"], .list, .lst [.atom 2]⟩], some "APP_s1_", false, .none⟩, ⟨[], [], []⟩⟩
+
+/-- open finding C04-subsection-append, inside the model: `parse_args(['--cfg', '{"s1": {"l+": [0], "m+": [5]}}', 's1'])` leaves
+    `s1.l = [17, 13, 0]` (the ROOT's `l` extended) and `s1.m = [5]` where the documented fold gives `[1, 0]` and `[2, 5]`; the same
+    entries on the sub-parser's own command line do give those -/
+theorem C04_subsection_append_counterexample :
+    (parseLevelsT {} [] [] [Rsec, S1sec]).map (getK [kq "l"]) = [some (.lst [.atom 17, .atom 13]), some (.lst [.atom 17, .atom 13, .atom 0])]
+    ∧ (parseLevelsT {} [] [] [Rsec, S1sec]).map (getK [kq "m"]) = [.none, some (.lst [.atom 5])]
+    ∧ valueAfter (asgBaseC S1sec.p S1sec.src {} ++ [.append [kq "l"] (.lst [.atom 0]), .append [kq "m"] (.lst [.atom 5])]) [kq "l"]
+        = some (.lst [.atom 1, .atom 0])
+    ∧ valueAfter (asgBaseC S1sec.p S1sec.src {} ++ [.append [kq "l"] (.lst [.atom 0]), .append [kq "m"] (.lst [.atom 5])]) [kq "m"]
+        = some (.lst [.atom 2, .atom 5])
+    ∧ (parseLevelsT {} [] [] [{ Rsec with src := ⟨[], [], []⟩ },
+          { S1sec with src := ⟨[], [], [.append [kq "l"] (.lst [.atom 0]), .append [kq "m"] (.lst [.atom 5])]⟩ }]).map (getK [kq "l"])
+        = [some (.lst [.atom 17, .atom 13]), some (.lst [.atom 1, .atom 0])] := ⟨rfl, rfl, rfl, rfl, rfl⟩
+
+/-- open finding C04-subdcf-section-over-env, inside the model: the section a level receives (`namespace=`) is merged OVER its
+    defaults+environment whatever source it came from.  Coming from an outer `--cfg` that is the documented order
+    (`C04_order_level_sections_partial`); coming from an outer parser's DEFAULT CONFIG FILE it is not: with `APP_S1__S2__V=5` read,
+    the section `{v: 16}` of s1's default config file leaves `s1.s2.v = 16`, the documented fold (default 1, file 16, variable 5) gives 5 -/
+theorem C04_subdcf_section_counterexample :
+    getK [kq "v"] (finalLevelT {} [true, true] (L2 true) [] [(kq "v", .atom 16)]) = some (.atom 16)
+    ∧ valueAfter (asgDefaults (L2 true).p ++ [.set [kq "v"] (.atom 16)] ++ asgEnvVars (L2 true).p (L2 true).src.env) [kq "v"] = some (.atom 5) :=
+  ⟨rfl, rfl⟩
+
+/-- non-vacuity of the section theorem: a plain section is inside its hypotheses and reaches the sub-parser's key -/
+example : (parseLevelsT {} [] [] [{ Rsec with src := ⟨[], [], [.cfg [kq "cfg"] [(kq "l", .lst [.atom 3]), (kq "s1", .dct [(kq "m", .lst [.atom 7])])]]⟩ }, S1sec]).map (getK [kq "m"])
+    = [.none, some (.lst [.atom 7])] := rfl
+example : itemWfT Rsec [S1sec] (.cfg [kq "cfg"] [(kq "l", .lst [.atom 3]), (kq "s1", .dct [(kq "m", .lst [.atom 7])])]) = true := by decide
 
 /-! ## the full statement fails for `key+` in the environment config (open finding C04-envcfg-append) -/
 
